@@ -2,6 +2,7 @@ package props
 
 import (
 	"fmt"
+	"math"
 
 	clip "github.com/bolom009/go-clipper2"
 
@@ -202,6 +203,28 @@ windings:
 		if wi != wr {
 			failClass("winding", rectEnclosedClass(paths, q, wi-wr), fmt.Sprintf("at %s inside the rectangle input winding %d, result winding %d", fmtPt(p), wi, wr))
 			break
+		}
+	}
+	// integral of the winding number over the rectangle: exact signed area of the result vs the slab decomposition
+	// of (input paths, rectangle); they may differ only by what the 2-unit bands can hold
+	if cells, ok := oracle.Decompose(paths, Paths{{{X: q.L, Y: q.T}, {X: q.R, Y: q.T}, {X: q.R, Y: q.B}, {X: q.L, Y: q.B}}}, 400); ok {
+		want, maxW := 0.0, 1
+		for _, c := range cells {
+			if c.WC != 0 {
+				want += float64(c.WS) * c.Area
+				maxW = max(maxW, c.WS, -c.WS)
+			}
+		}
+		got := oracle.Area2Paths(out).Float() / 2
+		rectArea := float64(q.R-q.L) * float64(q.B-q.T)
+		tol := float64(maxW)*(4*(edgeLen(paths)+2*float64(q.R-q.L)+2*float64(q.B-q.T))+13*float64(gen.NumVerts(paths)+4)) + 1e-7*math.Abs(want) + 4
+		ctx.Count("winding_integrals_compared", 1)
+		if d := got - want; math.Abs(d) > tol {
+			class := ""
+			if m := math.Round(-d / rectArea); m != 0 && math.Abs(-d-m*rectArea) <= tol {
+				class = rectEnclosedClass(paths, q, int(m))
+			}
+			failClass("winding-integral", class, fmt.Sprintf("signed area of the result %.1f, integral of the input winding number over the rectangle %.1f (difference %.1f, tolerance %.1f)", got, want, d, tol))
 		}
 	}
 	// fast paths per path + crossing detection
